@@ -100,6 +100,7 @@ def case_strategy(draw, percpu=False):
     return {"hv": hv, "kf": kf, "vf": vf, "keys": keys, "ops": ops,
             "size": draw(st.integers(2, 6)), "lru": draw(st.booleans()),
             "exec": draw(st.sampled_from(["fake", "fake", "kernel"])),
+            "derived": draw(st.booleans()),
             "ncpu": draw(st.sampled_from([1, 2, 4, 5, 16])),
             "online_delta": draw(st.sampled_from([0, 0, 1]))}
 
@@ -137,10 +138,17 @@ def build(case, f):
     amap = ArrayMap()
     hmap = HashMap()
     pmap = PerCPUArrayMap()
-    Key = type("Key", (Structure,), {f"k{i}": Member(x)
-                                     for i, x in enumerate(kf)})
-    Value = type("Value", (Structure,), {f"v{i}": Member(x)
-                                         for i, x in enumerate(vf)})
+    def structure(name, prefix, fmts):
+        if case.get("derived") and len(fmts) >= 2:
+            # the first member comes from a base Structure
+            base = type(name + "Base", (Structure,),
+                        {f"{prefix}0": Member(fmts[0])})
+            return type(name, (base,), {f"{prefix}{i}": Member(x)
+                                        for i, x in enumerate(fmts) if i})
+        return type(name, (Structure,), {f"{prefix}{i}": Member(x)
+                                         for i, x in enumerate(fmts)})
+    Key = structure("Key", "k", kf)
+    Value = structure("Value", "v", vf)
     ns = {"license": "GPL", "minimumPacketSize": 20, "amap": amap,
           "hmap": hmap, "pmap": pmap,
           "table": Dict(Key, Value, size=case["size"], lru=case["lru"]),
